@@ -767,7 +767,7 @@ reg("diff", 1, lambda tp, a: dict(axis=tp.choice(list(range(a.ndim)) + [-1]), n=
 
 
 def _gen_nanred(tp, a):
-    if a.dtype.kind != "f":
+    if a.dtype.kind not in "fi" or (a.dtype.kind == "i" and a.dtype.itemsize < 8 and tp.coin(1, 2)):
         return None
     fn = tp.choice(["nansum", "nanmax", "nanmin", "nanmean", "nanprod", "nanstd", "nanvar"])
     p = dict(axis=_axes(tp, a.ndim), keepdims=tp.coin(1, 3), fn=fn)
